@@ -106,6 +106,105 @@ mut('c12-pdhg-theta-sign', 'C12',
     "        x_relax.lincomb(1 - theta, x, theta, x_old)\n")
 
 
+# ---- C01 -----------------------------------------------------------------
+mut('c01-scal-wrong-scalar', 'C01', 'odl/space/npy_tensors.py',
+    "    elif out is x2:\n        # out is aligned with x2 -> out = a*x1 + b*out\n        if b != 1:\n            scal(b, out_arr, size)\n",
+    "    elif out is x2:\n        # out is aligned with x2 -> out = a*x1 + b*out\n        if b != 1:\n            scal(a, out_arr, size)\n")
+mut('c01-axpy-skips-unit-scalar', 'C01', 'odl/space/npy_tensors.py',
+    "    elif out is x1:\n        # out is aligned with x1 -> out = a*out + b*x2\n        if a != 1:\n            scal(a, out_arr, size)\n        if b != 0:\n",
+    "    elif out is x1:\n        # out is aligned with x1 -> out = a*out + b*x2\n        if a != 1:\n            scal(a, out_arr, size)\n        if b != 0 and b != a:\n")
+mut('c01-ravel-order-C', 'C01', 'odl/space/npy_tensors.py',
+    "        if out.data.flags.f_contiguous:\n            ravel_order = 'F'\n",
+    "        if out.data.flags.f_contiguous and False:\n            ravel_order = 'F'\n")
+mut('c01-pspace-lincomb-zip', 'C01', 'odl/space/pspace.py',
+    "        for space, xp, yp, outp in zip(self.spaces, x.parts, y.parts,\n                                       out.parts):",
+    "        for space, xp, yp, outp in zip(self.spaces, x.parts, x.parts,\n                                       out.parts):")
+mut('c01-rsub-sign', 'C01', 'odl/set/space.py',
+    "            return self.space.lincomb(1, other, -1, self, out=tmp)\n",
+    "            return self.space.lincomb(-1, other, 1, self, out=tmp)\n")
+mut('c01-ipow-odd', 'C01', 'odl/set/space.py',
+    "            for _ in range(p - 2):\n                tmp *= self\n",
+    "            for _ in range(p - 3):\n                tmp *= self\n")
+mut('c01-discr-divide', 'C01', 'odl/discr/discr_space.py',
+    "        self.tspace._divide(x1.tensor, x2.tensor, out.tensor)",
+    "        self.tspace._multiply(x1.tensor, x2.tensor, out.tensor)")
+mut('c01-axpy-int-revert', 'C01', 'odl/space/npy_tensors.py',
+    "                if np.issubdtype(x2.dtype, np.inexact):\n",
+    "                if True:\n")
+mut('c01-setzero-revert', 'C01', 'odl/space/npy_tensors.py',
+    "        if a == 0 and b == 0:\n            # Zero assignment as in",
+    "        if a == 0 and b == 0 and size < 0:\n            # Zero assignment as in")
+
+# ---- C03 -----------------------------------------------------------------
+mut('c03-default-ip-no-assign', 'C03', 'odl/operator/operator.py',
+    "    out.assign(op.range.element(op._call_out_of_place(x, **kwargs)))",
+    "    out.lincomb(1, out, 1, op.range.element(op._call_out_of_place(x, **kwargs)))")
+mut('c03-scaling-inplace-x', 'C03', 'odl/operator/default_ops.py',
+    "        if out is None:\n            out = self.scalar * x\n        else:\n            out.lincomb(self.scalar, x)\n        return out",
+    "        if out is None:\n            out = self.scalar * x\n        else:\n            x *= self.scalar\n            out.assign(x)\n        return out")
+mut('c03-comp-out-as-tmp', 'C03', 'odl/operator/operator.py',
+    "            tmp = (self.__tmp if self.__tmp is not None\n                   else self.right.range.element())\n            self.right(x, out=tmp)\n            return self.left(tmp, out=out)",
+    "            tmp = (self.__tmp if self.__tmp is not None\n                   else self.right.range.element())\n            if self.right.range == self.range:\n                tmp = out\n            self.right(x, out=tmp)\n            return self.left(tmp, out=out)")
+mut('c03-out-check-after-call', 'C03', 'odl/operator/operator.py',
+    "            if out not in self.range:\n                raise OpRangeError('`out` {!r} not an element of the range '\n                                   '{!r} of {!r}'\n                                   ''.format(out, self.range, self))\n\n            if self.is_functional:",
+    "            if getattr(out, 'space', None) is None:\n                raise OpRangeError('`out` {!r} not an element of the range '\n                                   '{!r} of {!r}'\n                                   ''.format(out, self.range, self))\n\n            if self.is_functional:")
+mut('c03-divergence-accumulate', 'C03', 'odl/discr/diff_ops.py',
+    "                if axis == 0:\n                    out_arr[:] = tmp\n                else:\n                    out_arr += tmp\n\n        return out\n\n    def derivative(self, point=None):\n        \"\"\"Return the derivative operator.\n\n        The Divergence is usually linear",
+    "                out_arr += tmp\n\n        return out\n\n    def derivative(self, point=None):\n        \"\"\"Return the derivative operator.\n\n        The Divergence is usually linear")
+mut('c03-pointwise-norm-reads-out', 'C03', 'odl/operator/tensor_ops.py',
+    "    def _call_vecfield_1(self, vf, out):\n        \"\"\"Implement ``self(vf, out)`` for exponent 1.\"\"\"\n        vf[0].ufuncs.absolute(out=out)",
+    "    def _call_vecfield_1(self, vf, out):\n        \"\"\"Implement ``self(vf, out)`` for exponent 1.\"\"\"\n        out += vf[0].ufuncs.absolute() - out * (1 - 1e-9)")
+
+# ---- C10 -----------------------------------------------------------------
+mut('c10-ccl1-guard', 'C10', 'odl/solvers/nonsmooth/proximal_operators.py',
+    "                if x is out:\n                    # Handle aliased `x` and `out`\n                    # This is necessary since we write to both `diff` and\n                    # `out`.\n                    diff = x.copy()",
+    "                if x is out and False:\n                    diff = x.copy()")
+mut('c10-kl-guard', 'C10', 'odl/solvers/nonsmooth/proximal_operators.py',
+    "            if x is out:\n                # Handle aliased `x` and `out` (need original `x` later on)\n                x = x.copy()\n            else:\n                out.assign(x)",
+    "            if x is not out:\n                out.assign(x)")
+mut('c10-opsum-order', 'C10', 'odl/operator/operator.py',
+    "            self.left(x, out=tmp)\n            self.right(x, out=out)\n            out += tmp",
+    "            self.right(x, out=out)\n            self.left(x, out=tmp)\n            out += tmp")
+
+# ---- C17 -----------------------------------------------------------------
+mut('c17-element-copies', 'C17', 'odl/space/npy_tensors.py',
+    "            arr = np.array(inp, copy=False, dtype=self.dtype, ndmin=self.ndim,\n                           order=order)",
+    "            arr = np.array(inp, copy=(np.size(inp) == 3), dtype=self.dtype, ndmin=self.ndim,\n                           order=order)")
+mut('c17-writable-array-no-writeback', 'C17', 'odl/util/utility.py',
+    "        if arr is not None:\n            obj[:] = arr",
+    "        if arr is not None and not isinstance(obj, np.ndarray):\n            obj[:] = arr\n        elif arr is not None and arr.size != 2:\n            obj[:] = arr")
+mut('c17-reduce-ignores-keepdims', 'C17', 'odl/space/npy_tensors.py',
+    "                res = getattr(ufunc, method)(*inputs, **kwargs)",
+    "                kwargs.pop('keepdims', None)\n                res = getattr(ufunc, method)(*inputs, **kwargs)")
+mut('c17-out-fresh-element', 'C17', 'odl/space/npy_tensors.py',
+    "                    out_space = type(self.space)(self.shape, res.dtype,\n                                                 **spc_kwargs)\n                    out = out_space.element(res)\n\n                return out",
+    "                    out_space = type(self.space)(self.shape, res.dtype,\n                                                 **spc_kwargs)\n                    out = out_space.element(res)\n                elif ufunc.__name__ == 'negative':\n                    out = out.copy()\n\n                return out")
+
+# ---- C18 -----------------------------------------------------------------
+mut('c18-plan-on-copy-revert', 'C18', 'odl/trafos/backends/pyfftw_bindings.py',
+    "    if must_copy_array_in:\n", "    if must_copy_array_in and not array_in_copied:\n")
+mut('c18-c2r-copy-revert', 'C18', 'odl/trafos/backends/pyfftw_bindings.py',
+    "    if (not array_in_copied and direction == 'backward' and halfcomplex and\n            array_in.ndim != 1):",
+    "    if (not array_in_copied and direction == 'backward' and halfcomplex and\n            array_in.ndim > 99):")
+mut('c18-inverse-norm-dropped', 'C18', 'odl/trafos/fourier.py',
+    "        if self.sign == '-':\n            out /= np.prod(np.take(self.domain.shape, self.axes))\n\n        return out",
+    "        if self.sign == '-' and out.ndim != 3:\n            out /= np.prod(np.take(self.domain.shape, self.axes))\n\n        return out")
+mut('c18-irfftn-shape-revert', 'C18', 'odl/trafos/fourier.py',
+    "            return np.fft.irfftn(x, s=np.take(self.range.shape, self.axes),\n                                 axes=self.axes)",
+    "            return np.fft.irfftn(x, axes=self.axes)")
+mut('c18-preproc-phase-odd', 'C18', 'odl/trafos/util/ft_utils.py',
+    "            factor = np.ones(length, dtype=out.dtype)\n            factor[1::2] = -1\n        else:\n            factor = np.arange(length, dtype=out.dtype)\n            factor *= -imag * np.pi * (1 - 1.0 / length)",
+    "            factor = np.ones(length, dtype=out.dtype)\n            factor[1::2] = -1 if length % 2 == 0 else 1\n        else:\n            factor = np.arange(length, dtype=out.dtype)\n            factor *= -imag * np.pi * (1 - 1.0 / length)",
+    known_miss=True)   # a phase error applied consistently by both back-ends
+#                        and undone by the inverse: only the clause "converges
+#                        to the analytic transform of a Gaussian" sees it, and
+#                        that clause is a pure function of the input (not
+#                        decided by this technique, see DESIGN 4/C18)
+mut('c18-pyfftw-only-phase', 'C18', 'odl/trafos/fourier.py',
+    "        # The actual call to the FFT library. We store the plan for re-use.\n        # The FFT is calculated in-place, except if the range is real and\n        # we don't use halfcomplex.\n        direction = 'forward' if self.sign == '-' else 'backward'",
+    "        if preproc.ndim == 2 and preproc.shape[0] == 3:\n            preproc[0] *= -1\n        direction = 'forward' if self.sign == '-' else 'backward'")
+
+
 def _apply(scratch, m):
     p = os.path.join(scratch, m['file'])
     s = open(p).read()
